@@ -246,6 +246,48 @@ def readLines (pinned recurseDefault : Bool) : List Str → Except ReadErr Manif
 def read (pinned recurseDefault : Bool) (text : Str) : Except ReadErr Manifest :=
   readLines pinned recurseDefault (lines (univNewlines text))
 
+/-! ### a manifest as a live object -/
+
+/-- `Manifest.read(file, setproduct, shouldRecurse)` into a manifest that may already hold entries: the entries of the
+file are appended; product and version are taken from the header if asked for, or if there is none yet -/
+def Manifest.readInto (m : Manifest) (setproduct recurseDefault : Bool) (text : Str) : Except ReadErr Manifest :=
+  match read false recurseDefault text with
+  | .error e => .error e
+  | .ok f => .ok { product := if setproduct || m.product.isNone then f.product else m.product,
+                   version := if setproduct || m.version.isNone then f.version else m.version,
+                   deps := m.deps ++ f.deps }
+
+/-- `Manifest.reverse()` -/
+def Manifest.reverse (m : Manifest) : Manifest := { m with deps := m.deps.reverse }
+
+def rollLeft1 {α : Type} : List α → List α
+  | [] => []
+  | x :: r => r ++ [x]
+
+def rollRight1 {α : Type} (l : List α) : List α :=
+  match l.reverse with
+  | [] => []
+  | x :: r => x :: r.reverse
+
+/-- `Manifest.roll(n)`: `n = 1`: `[a, b, c, d] -> [b, c, d, a]`; negative `n` rolls the other way -/
+def iter {α : Type} (f : α → α) : Nat → α → α
+  | 0, x => x
+  | k + 1, x => iter f k (f x)
+
+def rollList {α : Type} (n : Int) (l : List α) : List α :=
+  if n < 0 then iter rollRight1 n.natAbs l else iter rollLeft1 n.natAbs l
+
+def Manifest.roll (m : Manifest) (n : Int) : Manifest := { m with deps := rollList n m.deps }
+
+/-- `Manifest.getDependency(product, version, flavor, which)`: the `which`-th (Python index, default `-1` = last) of the
+entries that match -/
+def Manifest.getDependency (m : Manifest) (product : Str) (version flavor : Option Str) (which : Int) : Option Dep :=
+  let out := m.deps.filter fun d => d.product == product && (version.isNone || some d.version == version) &&
+    (flavor.isNone || d.flavor == flavor)
+  let n : Int := out.length
+  if out.isEmpty || which ≥ n || which < -n then none
+  else if which ≥ 0 then out[which.toNat]? else out[(n + which).toNat]?
+
 /-! ## TaggedProductList -/
 
 structure TagList where
@@ -338,6 +380,23 @@ def TagList.read (t : TagList) (text : Str) : Except ReadErr TagList :=
 def TagList.getProducts (t : TagList) : List (List Str) :=
   t.products.map fun p => p :: (assocGet t.info p).getD []
 
+/-- `deleteProduct` -/
+def TagList.deleteProduct (t : TagList) (product : Str) : TagList :=
+  { t with products := t.products.filter (· ≠ product), info := assocDel t.info product }
+
+/-- `mergeProductList(other)`: `addProduct(p[0], p[2], p[1], p[3:])` for every row of `other.getProducts()` -/
+def TagList.mergeProductList (t other : TagList) : TagList :=
+  other.getProducts.foldl (fun t row =>
+    match row with
+    | p :: fl :: ver :: extra => t.addProduct p ver (some fl) extra
+    | _ => t) t
+
+/-- `getProducts(sort=True)` sorts `self.products` in place before it lists them -/
+def TagList.sortInPlace (t : TagList) : TagList := { t with products := sortStrs t.products }
+
+/-- `getProductInfo(product)`: `[flavor, version, extra…]`, `none` = `[None, None]` -/
+def TagList.getProductInfo (t : TagList) (product : Str) : Option (List Str) := assocGet t.info product
+
 /-! ## Mapping -/
 
 /-- flavor ↦ product ↦ inVersion ↦ (outProduct, outVersion); an out-version `none` = "remove this version" -/
@@ -425,14 +484,35 @@ def Mapping.inverse (m : Mapping) : Option Mapping :=
 
 /-! ## remapEntries -/
 
-/-- the loop of `Manifest.remapEntries` over the products (`dummy` versions, which make eups declare a product,
-are outside the model) -/
+/-- the loop of `Manifest.remapEntries` over the products: the list it leaves (the products it declares on the way
+are `dummyDeclares`) -/
 def remapDeps (m : Mapping) (flavor : Str) (deps : List Dep) : List Dep :=
   deps.filterMap fun p =>
     match m.apply p.product p.version flavor with
     | (_, none) => none
     | (pn, some vn) =>
       if (pn, vn) != (p.product, p.version) then some (mkDep pn vn none none none none false false []) else some p
+
+def sDummy : Str := [100, 117, 109, 109, 121]                 -- dummy
+
+/-- `Eups.declare` accepts the product name: no character outside `[a-zA-Z_0-9]` (otherwise it raises, and
+`remapEntries` prints the exception and goes on) -/
+def legalName (n : Str) : Bool := n.all fun c => Str.isAlnum c || c == 95
+
+/-- the `dummy` branch of `Manifest.remapEntries`: an entry that the mapping *changes* into version `dummy` makes eups
+declare that product (`eups.declare(name, "dummy", productDir="none", tablefile="none")`) unless `findProduct` already
+finds it.  `known` = the products for which `findProduct(name, "dummy")` succeeds; the result lists the products
+declared, in order (a product declared for one entry is found for the next; a name `Eups.declare` refuses is not
+declared, the exception is printed and swallowed). -/
+def dummyDeclares (m : Mapping) (flavor : Str) : List Str → List Dep → List Str
+  | _, [] => []
+  | known, p :: rest =>
+    match m.apply p.product p.version flavor with
+    | (pn, some vn) =>
+      if (pn, vn) != (p.product, p.version) && vn == sDummy && !known.contains pn && legalName pn then
+        pn :: dummyDeclares m flavor (known ++ [pn]) rest
+      else dummyDeclares m flavor known rest
+    | (_, none) => dummyDeclares m flavor known rest
 
 /-- split at the first `:` as `^([^:]+)(?::(.*))?` does; `none` = the word starts with `:` (no match) -/
 def splitColon (w : Str) : Option (Str × Option Str) :=
@@ -557,6 +637,13 @@ def remapEntries (arg : Mapping) (mode : Option Str) (files : List (List Str)) (
     Option (List Dep) :=
   (readRemapFiles mode files).map fun ff => remapDeps (arg.merge ff false) flavor deps
 
+/-- the pinned `def remapEntries(self, mapping=Mapping(), mode=None)`: a call without a mapping argument uses — and
+its `merge` mutates — the one default object shared by all calls of the process.  `leftover` = that object as the
+earlier calls left it; the result is the remapped list and the object as this call leaves it. -/
+def remapEntriesDefaultPinned (leftover : Mapping) (mode : Option Str) (files : List (List Str)) (flavor : Str)
+    (deps : List Dep) : Option (List Dep × Mapping) :=
+  (readRemapFiles mode files).map fun ff => (remapDeps (leftover.merge ff false) flavor deps, leftover.merge ff false)
+
 def remapEntriesPinned (arg : Mapping) (mode : Option Str) (files : List (List Str)) (flavor : Str) (deps : List Dep) :
     Option (List Dep) :=
   (readRemapFilesPinned mode files).map fun ff => remapDeps (arg.merge ff false) flavor deps
@@ -643,5 +730,74 @@ def serve (byTagOnly : Bool) (files : List (Str × Str)) : TagCache → List Req
 def cacheAfter (byTagOnly : Bool) (files : List (Str × Str)) : TagCache → List Req → TagCache
   | c, [] => c
   | c, r :: rs => cacheAfter byTagOnly files (serve1 byTagOnly files c r).2 rs
+
+/-! ## DistribServer.getFile / cacheFile: files fetched from the server, remembered per source -/
+
+/-- `DistribServer._fileCache` (source path ↦ the local file the copy was written to) and the local files -/
+structure FileSrv where
+  cache : List (Str × Str) := []
+  files : List (Str × Str) := []
+  deriving DecidableEq, Repr
+
+inductive FileAns
+  | content (text : Str)
+  | notFound                     -- RemoteFileNotFound
+  | sameFile                     -- shutil.SameFileError (pinned tree only)
+  deriving DecidableEq, Repr
+
+/-- `DistribServer.getFile(path, filename=dest)` → `cacheFile(dest, base/path)`; the answer is what the returned local
+file holds.  `pinned`: the pinned `cacheFile` kept believing that a local file holds the source it was first written
+for, even after the same file had been given as destination for another source, and copied a file onto itself. -/
+def getFile (pinned : Bool) (server : List (Str × Str)) (s : FileSrv) (path dest : Str) : FileAns × FileSrv :=
+  let s1 : FileSrv := if pinned then s else
+    { s with cache := s.cache.filter fun p => !(p.2 == dest && p.1 != path) }
+  match assocGet s1.cache path with
+  | some f =>
+    if f == dest then (if pinned then (.sameFile, s1) else (.content ((assocGet s1.files f).getD []), s1))
+    else
+      let c := (assocGet s1.files f).getD []
+      (.content c, { s1 with files := assocSet s1.files dest c })
+  | none =>
+    match assocGet server path with
+    | none => (.notFound, s1)
+    | some c => (.content c, { cache := assocSet s1.cache path dest, files := assocSet s1.files dest c })
+
+/-- a history of requests `(path, dest)` to one server object -/
+def getFiles (pinned : Bool) (server : List (Str × Str)) : FileSrv → List (Str × Str) → List FileAns
+  | _, [] => []
+  | s, (p, d) :: r => (getFile pinned server s p d).1 :: getFiles pinned server (getFile pinned server s p d).2 r
+
+/-! ## Distrib._createDeps: the order of the dependency manifest -/
+
+/-- one element of `Eups.getDependentProducts(product, topological=True)` as `_createDeps` uses it: name, requested
+version, optional flag, recursion depth, and the version `findProductFromVRO` finds (`none`: not found) -/
+structure DepReq where
+  name : Str
+  version : Str
+  optional : Bool
+  depth : Nat
+  found : Option Str
+  deriving DecidableEq, Repr
+
+/-- stable insertion by decreasing depth (`dependencies.sort(key=lambda a: -a[2])`) -/
+def insertByDepth (x : DepReq) : List DepReq → List DepReq
+  | [] => [x]
+  | y :: r => if x.depth ≥ y.depth then x :: y :: r else y :: insertByDepth x r
+
+def sortByDepth (l : List DepReq) : List DepReq := l.foldr insertByDepth []
+
+/-- the loop over the sorted dependencies: a product that is found is listed with the version found, a missing
+optional one is skipped, a missing required one raises `ProductNotFound` (`none`) -/
+def listDeps : List DepReq → Option (List (Str × Str × Bool))
+  | [] => some []
+  | d :: r =>
+    match d.found with
+    | some v => (listDeps r).map fun l => (d.name, v, d.optional) :: l
+    | none => if d.optional then listDeps r else none
+
+/-- `_createDeps`: the top product is added first, the dependencies follow deepest first, and `roll()` takes the top
+product to the end: the manifest is in install order -/
+def createDepsOrder (top : Str × Str) (deps : List DepReq) : Option (List (Str × Str × Bool)) :=
+  (listDeps (sortByDepth deps)).map fun l => rollList 1 ((top.1, top.2, false) :: l)
 
 end EupsModel.Manifest
